@@ -216,9 +216,10 @@ def _map_fill_protocol(fm: FuncModel, mname: str, src: str, g) -> list[str]:
             tg = n.targets[0] if isinstance(n, ast.Assign) else n.target
             if isinstance(tg, ast.Name) and tg.id == mname and isinstance(n.value, ast.Dict):
                 init = n
-    if init is None or len(init.value.keys) != 1 or not (
-            isinstance(init.value.keys[0], ast.Call) and callee_name(init.value.keys[0]) == "root"
-            and text(init.value.keys[0].func.value) == src):
+    k0 = init.value.keys[0] if init is not None and len(init.value.keys) == 1 else None
+    if isinstance(k0, ast.Name):
+        k0 = fm.deref(k0, fm.cfgn(init))      # `root = scc_sd.root()` kept in a local
+    if k0 is None or not (isinstance(k0, ast.Call) and callee_name(k0) == "root" and text(k0.func.value) == src):
         problems.append(f"id map `{mname}` is not initialised with the source root mapped to the attachment node")
         return problems
     attach = init.value.values[0]
@@ -275,8 +276,11 @@ def _map_fill_protocol(fm: FuncModel, mname: str, src: str, g) -> list[str]:
                     t, pol = t.operand, not pol
                 if isinstance(t, ast.Call) and callee_name(t) == "node_is_minimal" and (pol == b.pol):
                     min_true.append(b)
+                rhs_ = t.comparators[0] if isinstance(t, ast.Compare) and len(t.ops) == 1 else None
+                if isinstance(rhs_, ast.Name):
+                    rhs_ = fm.deref(rhs_, fm.cfg.nodes[next(iter(fm.cfg.g.predecessors(b.id)))])
                 if isinstance(t, ast.Compare) and len(t.ops) == 1 and isinstance(t.ops[0], (ast.Eq, ast.NotEq)) \
-                        and isinstance(t.comparators[0], ast.Call) and callee_name(t.comparators[0]) == "root":
+                        and isinstance(rhs_, ast.Call) and callee_name(rhs_) == "root" and text(rhs_.func.value) == src:
                     if isinstance(t.ops[0], ast.Eq) == (pol == b.pol):
                         min_true.append(b)  # the root is handled after the loops
         reach = reach_stop(fm, start, {m.cfgn.id for m in marks} | {b.id for b in min_true}, {hdr.id})
@@ -504,6 +508,24 @@ def successor_protocol(ck: Check, rule: str) -> None:
             for c in ast.walk(n):
                 if isinstance(c, ast.Call) and callee_name(c) == "_ensure_node":
                     loops.append((n, c))
+    if not loops:
+        # two-phase form: the children are created first and connected afterwards.  A dictionary keyed by the child id in
+        # between holds one stable motif per child, whereas several motifs can percolate to the same space
+        for n in own_walk(f.node):
+            keys = []
+            if isinstance(n, ast.DictComp):
+                keys = [n.key]
+            elif isinstance(n, ast.Assign) and len(n.targets) == 1 and isinstance(n.targets[0], ast.Subscript):
+                keys = [n.targets[0].slice]
+            for k_ in keys:
+                k_ = fm.deref(k_, fm.cfgn(n)) if isinstance(k_, ast.Name) else k_
+                if isinstance(k_, ast.Call) and "node" in (callee_name(k_) or "") and isinstance(k_.func, ast.Attribute) \
+                        and text(k_.func.value) == "self" and any(text(a_) == f.params()[1] for a_ in k_.args):
+                    ck.ob(rule, fm, f.stmt_of(n), False,
+                          f"the successors are collected in a dictionary keyed by the child id (`{text(k_)[:60]}`) before they are "
+                          f"connected: stable motifs that percolate to the same space overwrite each other, and the edge to that "
+                          f"child carries one motif instead of all of them", key="ensure loop")
+                    return
     if len(loops) != 1:
         raise AnalysisError("anchor vanished: the ensure loop of _expand_one_node")
     loop, ens = loops[0]
